@@ -60,6 +60,8 @@ def ser_mentions(ms):
             out.append(m[0] + ser_value(m[1]))
             continue
         _, name, form, val, joined = m
+        if isinstance(name, list):      # attribute name with counter atoms (`[data-$=x]`)
+            name = ser_value(name)
         if open_set and joined:
             out.append(' ')
         else:
@@ -206,6 +208,8 @@ def den_mention(m, ctr, line=None):
     if m[0] == '.':
         return {'name': 'class', 'value': den_value(m[1], ctr, line), 'vt': 'raw', 'bool': False, 'impl': False}
     _, name, form, val, _j = m
+    if isinstance(name, list):
+        name = den_value(name, ctr, line)
     impl = form.startswith('impl')
     f = form[5:] if form.startswith('impl-') else form
     vt = {'none': 'raw', 'raw': 'raw', 'dq': 'dq', 'sq': 'sq', 'expr': 'expr', 'bool': 'raw', 'impl': 'raw'}[f if f != 'bool' or not impl else 'bool']
